@@ -63,14 +63,27 @@ func NewHandler(core zapcore.Core, opts ...HandlerOption) *Handler {
 
 var _ slog.Handler = (*Handler)(nil)
 
-// groupObject holds all the Attrs saved in a slog.GroupValue.
-type groupObject []slog.Attr
+// groupObject holds the fields converted from the Attrs saved in a
+// slog.GroupValue. Attrs that convert to a skipped field are not included.
+type groupObject []zapcore.Field
 
 func (gs groupObject) MarshalLogObject(enc zapcore.ObjectEncoder) error {
-	for _, attr := range gs {
-		convertAttrToField(attr).AddTo(enc)
+	for _, f := range gs {
+		f.AddTo(enc)
 	}
 	return nil
+}
+
+// convertGroup converts the Attrs of a group,
+// dropping those that must be ignored (empty Attrs and empty groups).
+func convertGroup(attrs []slog.Attr) groupObject {
+	fields := make(groupObject, 0, len(attrs))
+	for _, attr := range attrs {
+		if f := convertAttrToField(attr); f.Type != zapcore.SkipType {
+			fields = append(fields, f)
+		}
+	}
+	return fields
 }
 
 func convertAttrToField(attr slog.Attr) zapcore.Field {
@@ -95,11 +108,17 @@ func convertAttrToField(attr slog.Attr) zapcore.Field {
 	case slog.KindUint64:
 		return zap.Uint64(attr.Key, attr.Value.Uint64())
 	case slog.KindGroup:
+		group := convertGroup(attr.Value.Group())
+		if len(group) == 0 {
+			// Ignore groups that have no attrs to show,
+			// even if they have a non-empty key.
+			return zap.Skip()
+		}
 		if attr.Key == "" {
 			// Inlines recursively.
-			return zap.Inline(groupObject(attr.Value.Group()))
+			return zap.Inline(group)
 		}
-		return zap.Object(attr.Key, groupObject(attr.Value.Group()))
+		return zap.Object(attr.Key, group)
 	case slog.KindLogValuer:
 		return convertAttrToField(slog.Attr{
 			Key: attr.Key,
